@@ -252,12 +252,12 @@ func (g *FnGen) doCall(ci ssa.CallInstruction, v ssa.Value) {
 			kind = "extern-requires"
 		}
 		for i, r := range ct.Requires {
-			ctx := &EvalCtx{g: g, env: env, st: g.st, oldSt: g.st, oldEnv: env, guard: guard}
+			ctx := &EvalCtx{g: g, callee: true, env: env, st: g.st, oldSt: g.st, oldEnv: env, guard: guard}
 			g.obligeClause(kind, site+"/"+clauseLabel(r, i), guard, r, ctx, ci.Pos())
 		}
 		// termination of recursion
 		if callee != nil && callee == g.fn && ct.Decreases != nil && g.entryVals != nil {
-			ctx := &EvalCtx{g: g, env: env, st: g.st, oldSt: g.st, oldEnv: env, guard: guard}
+			ctx := &EvalCtx{g: g, callee: true, env: env, st: g.st, oldSt: g.st, oldEnv: env, guard: guard}
 			m := to64(g.eval(ct.Decreases.E, ctx))
 			e := g.entryVals["decreases"]
 			g.oblige("decreases", site, guard, and(fmt.Sprintf("(bvslt %s %s)", m, e), fmt.Sprintf("(bvsle (_ bv0 64) %s)", e)), ct.Decreases.Src, ci.Pos())
@@ -373,13 +373,13 @@ func (g *FnGen) doCall(ci ssa.CallInstruction, v ssa.Value) {
 			// the callee's functional postconditions hold on its domain only
 			var parts []string
 			for _, d := range ct.Domain {
-				ctx := &EvalCtx{g: g, env: env, st: pre, oldSt: pre, oldEnv: env, guard: guard}
+				ctx := &EvalCtx{g: g, callee: true, env: env, st: pre, oldSt: pre, oldEnv: env, guard: guard}
 				parts = append(parts, g.evalBool(d.E, ctx))
 			}
 			eg = and(guard, g.def("Wcallee", sortBool, and(parts...)))
 		}
 		for i, e := range ct.Ensures {
-			ctx := &EvalCtx{g: g, env: env, st: g.st, oldSt: pre, oldEnv: env, guard: guard}
+			ctx := &EvalCtx{g: g, callee: true, env: env, st: g.st, oldSt: pre, oldEnv: env, guard: guard}
 			g.assumeClause(eg, e.E, ctx, fmt.Sprintf("ensures:%s:%s", name, clauseLabel(e, i)))
 		}
 	}
@@ -441,7 +441,7 @@ func (g *FnGen) havocAssign(a string, env map[string]Val, sig *types.Signature, 
 		if err != nil {
 			efail("bad assigns %q", a)
 		}
-		ctx := &EvalCtx{g: g, env: env, st: g.st, oldSt: g.st, oldEnv: env}
+		ctx := &EvalCtx{g: g, callee: true, env: env, st: g.st, oldSt: g.st, oldEnv: env}
 		obj := g.eval(e, ctx)
 		saved := g.S.Contracts[ct.Func]
 		delete(g.S.Contracts, ct.Func)
@@ -464,7 +464,7 @@ func (g *FnGen) havocAssign(a string, env map[string]Val, sig *types.Signature, 
 	if i := strings.LastIndex(a, "."); i > 0 && !strings.Contains(a, "(") && !strings.HasPrefix(a, "key:") {
 		if e, err := ParseExpr(a[:i]); err == nil {
 			if hasKey(env, rootIdent(e)) {
-				ctx := &EvalCtx{g: g, env: env, st: g.st, oldSt: g.st, oldEnv: env}
+				ctx := &EvalCtx{g: g, callee: true, env: env, st: g.st, oldSt: g.st, oldEnv: env}
 				base := g.eval(e, ctx)
 				_, idx := lookupFieldByName(base.Go, a[i+1:])
 				if idx != nil {
@@ -491,7 +491,7 @@ func (g *FnGen) havocAssign(a string, env map[string]Val, sig *types.Signature, 
 			if e, err := ParseExpr(a[i+1 : len(a)-1]); err == nil && hasKey(env, rootIdent(e)) {
 				key := g.ensureGhostField(a[:i])
 				g.checkCalleeGhost(ci, key)
-				ctx := &EvalCtx{g: g, env: env, st: g.st, oldSt: g.st, oldEnv: env}
+				ctx := &EvalCtx{g: g, callee: true, env: env, st: g.st, oldSt: g.st, oldEnv: env}
 				arg := g.eval(e, ctx)
 				rs, _, _ := ctypeByName(g.D, g.P, gf.ResType)
 				nv := g.freshConst("hv_"+a[:i], rs)
